@@ -412,7 +412,7 @@ func oracle(c *octx) *eng.Violation {
 		}
 		return first(c.outcome("action", true, false), c.mainEq("default-connection", projVisits, false))
 	case "C06":
-		if c.sc.Ctx.Kind == "cancel" {
+		if c.sc.Ctx.Kind == "cancel" || c.sc.Ctx.Kind == "deadline" {
 			// cancelled meanwhile: post (if called at all) still comes after every
 			// item event, once, and a slot is the item's real outcome or an error
 			return first(c.postAfterItems(), c.slotsHonest())
@@ -599,6 +599,16 @@ func (c *octx) stopOnError(boosted bool) *eng.Violation {
 		}
 		if !have {
 			continue
+		}
+		if mb.Conc <= 1 {
+			// sequential execution or one worker: items are processed in list order,
+			// so an item behind the first failing one is not executed at all - not
+			// later, and not earlier either
+			for _, e := range bv.evs {
+				if e.Kind == "exec_start" && e.I > F.I {
+					return c.viol("item-behind-failing-one-executed", "batch node %d (stop on error, concurrency %d): item %d was executed (seq %d) although item %d, ahead of it in the list, failed (seq %d)", mb.N, mb.Conc, e.I-1, e.Seq, F.I-1, F.Seq)
+				}
+			}
 		}
 		newOn := map[string]int{}
 		open := map[string]bool{}
